@@ -20,8 +20,8 @@ func NewEnv() *Env {
 
 func (e *Env) Inherit(parent *Env) *Env {
 	util.Assert(e.parent == nil, "env.parent != nil")
-	e.parent = parent
-	return e
+	// 不修改 receiver, 同一个环境对象可以重复用于多次调用
+	return &Env{parent, e.ctx, e.fnTbl, e.Dgb}
 }
 
 func (e *Env) Derive() *Env {
